@@ -2,6 +2,7 @@
 package c14
 
 import (
+	"reflect"
 	"encoding/json"
 	"fmt"
 	"net/netip"
@@ -77,6 +78,15 @@ func genCommand(t *rapid.T) (text, kind string, valid bool) {
 	case 4, 5, 6: // legacy
 		user := vh.GenPlainToken(t, "luser")
 		host := vh.GenPlainToken(t, "lhost")
+		if rapid.IntRange(0, 5).Draw(t, "lOddSpace") == 2 {
+			// only U+0020 separates legacy attributes: other white space is part of a value
+			ws := rapid.SampledFrom([]string{"\t", "\n", "\u00a0", "\u2003", "\v", "\r", "\u3000", "\u0085"}).Draw(t, "lOddSpaceChar")
+			if rapid.Bool().Draw(t, "lOddSpaceInUser") {
+				user = "al" + ws + user
+			} else {
+				host = host + ws + "top"
+			}
+		}
 		toks := []string{"IFVer=6"}
 		valid = true
 		switch rapid.IntRange(0, 4).Draw(t, "lver") {
@@ -266,6 +276,38 @@ func gen(t *rapid.T) Case {
 			c.Argv, c.ArgvKind, v3 = []string{"gensign", "-c", "/usr/bin/gensign NONS Regular"}, "valid", true
 		}
 	}
+	if c.LogName != "" && rapid.IntRange(0, 7).Draw(t, "foldedUser") == 3 {
+		// the client declares a user that equals the login name up to letter case / Unicode case folding
+		var folded string
+		switch rapid.IntRange(0, 4).Draw(t, "foldKind") {
+		case 0:
+			folded = strings.ToUpper(c.LogName)
+		case 1:
+			folded = strings.ToLower(c.LogName)
+		case 2:
+			folded = strings.ToUpper(c.LogName[:1]) + c.LogName[1:]
+		case 3:
+			folded = strings.NewReplacer("k", "\u212a", "K", "\u212a", "s", "\u017f", "S", "\u017f").Replace(c.LogName)
+		default:
+			folded = strings.Map(func(r rune) rune {
+				if r >= 'a' && r <= 'z' {
+					return r - 32
+				}
+				if r >= 'A' && r <= 'Z' {
+					return r + 32
+				}
+				return r
+			}, c.LogName)
+		}
+		if utf8.ValidString(folded) && folded != "" {
+			if rapid.Bool().Draw(t, "foldLegacy") && !vh.HasSpaceOrAt(folded) {
+				c.Command, c.CmdKind, v1 = "IFVer=6 SSHClientVersion=8.1 req="+folded+"@laptop", "legacy-folded-user", true
+			} else {
+				c.Command, c.CmdKind, v1 = vh.JoinMembers([]vh.Member{{Name: "ifVer", Raw: "7"}, {Name: "username", Raw: vh.JStr(folded)}, {Name: "hostname", Raw: vh.JStr("laptop")}, {Name: "sshClientVersion", Raw: vh.JStr("8.1")}}, ""), "json-folded-user", true
+			}
+			c.CommandRaw = nil
+		}
+	}
 	c.MustSucceed = v1 && v2 && v3 && c.LogName != ""
 	return c
 }
@@ -309,6 +351,9 @@ func eval(c Case) (o obs, crash error) {
 		o.user, o.host, o.tr, o.ver = p.ReqUser, p.ReqHost, p.TransID, p.SSHClientVersion.Marshal()
 		o.attrsNil = p.Attrs == nil
 	})
+	if crash == nil && !reflect.DeepEqual(argv, c.Argv) && !(len(argv) == 0 && len(c.Argv) == 0) {
+		crash = vh.Errf("NewReqParam rewrote the caller's argument vector: %q -> %q", c.Argv, argv)
+	}
 	return
 }
 
@@ -425,7 +470,7 @@ func exec(c0 Case) (vh.Outcome, error) {
 	return out, nil
 }
 
-const rule = "SSH_ORIGINAL_COMMAND: JSON objects under the documented wire names (complete, member dropped, member retyped, extra look-alike members such as logName/clientIP, shuffled, with insignificant whitespace around the object, complete objects followed by a trailer: a brace, a second object, legacy tokens), legacy text (version omitted / empty / valid / invalid, requester absent / without '@', optionally among 26..100 further attributes), other JSON values (null, arrays, strings with ' req=a@b '), empty, bytes, legacy noise; LOGNAME empty / unicode / spaces; SSH_CONNECTION v4, v6, zone-suffixed, leading zeros, bracketed, empty, leading space, tab; every other environment variable answers with a decoy (203.0.113.9 ...; SSH_CLIENT, USER = root, ...) that must never show up in the result; argv 0..8 arguments partitioned at random from token lists (valid 3..6 tokens, wrong count, policy misplaced or misspelt, empty tokens). Each Case is evaluated twice. Oracle on success: LogName = LOGNAME != '', ClientIP = first field and valid without zone (net/netip), policy in {NONS,NSOK} = second-last token, handler = last token, version = independently parsed major.minor of the declared text (0.0 only when a legacy message has none), ReqUser/ReqHost = declared values, transaction id 10 hex digits and different between the two evaluations; inputs valid by construction must succeed. Non-trivial: accepted cases and refused cases whose command is a non-object JSON value; distinct by Case hash."
+const rule = "SSH_ORIGINAL_COMMAND: JSON objects under the documented wire names (complete, member dropped, member retyped, extra look-alike members such as logName/clientIP, shuffled, with insignificant whitespace around the object, complete objects followed by a trailer: a brace, a second object, legacy tokens), legacy text (values containing white space other than U+0020 - tab, newline, NBSP, EM SPACE ... - which is not a separator; version omitted / empty / valid / invalid, requester absent / without '@', optionally among 26..100 further attributes), declared users that equal LOGNAME up to letter case or Unicode case folding (upper / lower / title / swapped case, Kelvin sign, long s), other JSON values (null, arrays, strings with ' req=a@b '), empty, bytes, legacy noise; LOGNAME empty / unicode / spaces; SSH_CONNECTION v4, v6, zone-suffixed, leading zeros, bracketed, empty, leading space, tab; every other environment variable answers with a decoy (203.0.113.9 ...; SSH_CLIENT, USER = root, ...) that must never show up in the result; argv 0..8 arguments partitioned at random from token lists (valid 3..6 tokens, wrong count, policy misplaced or misspelt, empty tokens). Each Case is evaluated twice; the caller's argument vector must come back unchanged. Oracle on success: LogName = LOGNAME != '', ClientIP = first field and valid without zone (net/netip), policy in {NONS,NSOK} = second-last token, handler = last token, version = independently parsed major.minor of the declared text (0.0 only when a legacy message has none), ReqUser/ReqHost = declared values, transaction id 10 hex digits and different between the two evaluations; inputs valid by construction must succeed. Non-trivial: accepted cases and refused cases whose command is a non-object JSON value; distinct by Case hash."
 
 func TestC14Params(t *testing.T) {
 	vh.Run(t, vh.Spec[Case]{Property: "C14", Name: "TestC14Params", Rule: rule, Gen: gen, Exec: exec})
